@@ -110,8 +110,11 @@ def run(ctx):
             n3 += 1
             n_rel += 1
             ctx.ok('R08.3:D-rel', '%s %s: implied by the inductive relational invariant at this point' % (fn, s.desc), s.where())
-        elif fn not in rel and fn in RUN_LOOP_FUNCS and (s.kind in ('bounds', 'sliceindex') or s.kind == 'overflow'):
-            undecided += 1        # rle_16_decompress in the quick tier: index arithmetic of the run loops is decided in the thorough tier only
+        elif fn not in rel and fn in RUN_LOOP_FUNCS and (
+                s.kind in ('bounds', 'sliceindex')
+                or (s.kind == 'overflow' and s.sig.startswith('Overflow(Add,_,') and not re.search(r'const (8|1|4)\)$', s.sig))
+                or (s.kind == 'overflow' and re.search(r'Overflow\((Sub|Add),count,const 1\)', s.sig))):
+            undecided += 1        # rle_16_decompress: index arithmetic `line + x` and the run counter inside the run loops are not decided (DESIGN.md 9.6)
         else:
             ctx.fail('R08.3', '%s|%s' % (fn, s.sig), '%s: %s is not discharged for all u16 dimensions / data (intervals: %s; relational invariant: not implied)'
                      % (fn, s.desc, s.detail), s.where())
@@ -191,6 +194,7 @@ def run(ctx):
                   '%s calls unsafe functions %s' % (f, [c.callee for c in unsafe]))
     ctx.floor('R08.4', 'allocations in decompress / rgb565torgb32', n_alloc, 3)
 
+    insertmix_guard(ctx, P)
     # ---- R08.5 run loops bounded by the column counter ------------------------------------------------------------------------
     for f, counter, floor_ in (('codec::rle::rle_16_decompress', 'x', 40), ('codec::rle::process_plane', 'indexw', 4)):
         b = P.bodies[f]
@@ -223,6 +227,51 @@ def run(ctx):
                       % (f, counter))
         ctx.floor('R08.5', 'pixel stores in %s' % f.rsplit('::', 1)[-1], len(set(stores)), floor_)
         ctx.floor('R08.5', 'comparisons of %s with width in %s' % (counter, f.rsplit('::', 1)[-1]), len(cmps), 5)
+
+
+def insertmix_guard(ctx, P):
+    """R08.6: the only pixel store that is not inside a loop bounded by `x < width` is the inserted mix pixel of a FILL that follows a
+    FILL.  It is safe for width = 0 only because the flag is never set while nothing has been decoded yet (x == width and no previous
+    line): every path that sets the flag must leave that test through `x != width` or `prevline != None`."""
+    b = P.bodies['codec::rle::rle_16_decompress']
+    ims = b.locals_named('insertmix')
+    xs, ws, pls = set(b.locals_named('x')), set(b.locals_named('width')), set(b.locals_named('prevline'))
+    if len(ims) != 1 or not xs or not ws or not pls:
+        ctx.fail('R08.6', 'insertmix:anchor', 'rle_16_decompress no longer has the insertmix / x / width / prevline variables this rule is stated over', b.where())
+        return
+    sets = [d[1] for d in b.defs.get(ims[0], []) if d[0] == 'stmt' and d[3]['rv']['rv'] == 'use' and op_const(d[3]['rv']['op']) == 1]
+    edges = []
+    for blk in range(b.n):
+        t = b.blocks[blk]['term']
+        if t['t'] != 'switch' or blk not in b.live_blocks:
+            continue
+        dl = op_local(t['discr'])
+        be = bool_edges(b, blk)
+        for d in b.defs.get(dl, []) if dl is not None else []:
+            if d[0] == 'stmt' and d[3]['rv']['rv'] == 'bin' and d[3]['rv']['op'] in ('Eq', 'Ne') and be:
+                vl, vr = set(), set()
+                origins(b, d[3]['rv']['l'], visited=vl)
+                origins(b, d[3]['rv']['r'], visited=vr)
+                if (xs & vl and ws & vr) or (xs & vr and ws & vl):
+                    edges.append((blk, be[1] if d[3]['rv']['op'] == 'Eq' else be[0]))          # the x != width edge
+            elif d[0] == 'call' and re.search(r'PartialEq(<.*>)?>?::(eq|ne)$', d[2].callee) and be:
+                vis = set()
+                for a in d[2].args:
+                    origins(b, a, visited=vis)
+                if pls & vis:
+                    edges.append((blk, be[1] if d[2].callee.endswith('eq') else be[0]))        # the prevline != None edge
+            elif d[0] == 'stmt' and d[3]['rv']['rv'] == 'discr' and d[3]['rv']['place']['l'] in pls:
+                for v_, tg in zip(t['vals'], t['targets']):
+                    if v_ == 1:
+                        edges.append((blk, tg))
+                if 1 not in t['vals'] and t['otherwise'] is not None:
+                    edges.append((blk, t['otherwise']))
+    for i, sb in enumerate(sets):
+        ctx.check(bool(edges) and b.dominated_by_edges(sb, edges), 'R08.6', 'insertmix:set#%d' % i,
+                  'the inserted-mix flag is set only after `x != width` or `prevline != None` (a FILL at the very start of the bitmap inserts nothing)',
+                  where(b, sb), 'rle_16_decompress can set the inserted-mix flag while x == width and no line has been decoded: the mix pixel is then written '
+                  'without any row check having validated x < width (with width = 0 it is an out-of-bounds write into an empty buffer)')
+    ctx.floor('R08.6', 'sites that set the inserted-mix flag', len(sets), 1)
 
 
 def copy_root_name(b, op):
